@@ -1,4 +1,5 @@
 import PtVerif.Proofs.LoadersNsfField
+import PtVerif.Proofs.LoadersNsfOk
 import PtVerif.Proofs.LoadersMass
 import PtVerif.Model.LoaderTables
 import PtVerif.Generated.NsfTables
@@ -359,6 +360,138 @@ theorem generated_nodes_return_tabulated (env : NsfEnv ℝ) (henv : env.zOf = zO
   rw [generated_energy_table env henv e he z hz]
   have hinc := List.all_eq_true.mp energies_increasing e he
   exact ed_node_returns_tabulated env.ef hef e.rows hinc r hr
+
+/-! ### `nsf.init` runs to completion on the embedded tables -/
+
+theorem rows_guard :
+    PtGen.nsfRows.all (fun r => symOf r.z == some r.sym && (r.abs.val (α := Rat)).isSome) = true := by
+  decide +kernel
+
+theorem xe_row_fact :
+    ((ptrs PtGen.nsfRows).elId 54 != 0 &&
+      match PtGen.nsfRows[(ptrs PtGen.nsfRows).elId 54 - 1]? with
+      | some r => r.tot == .missing && r.coh != .missing && r.inc != .missing
+      | none => false) = true := by decide +kernel
+
+theorem eu_row_fact :
+    ((ptrs PtGen.nsfRows).isoId 63 151 != 0 &&
+      match PtGen.nsfRows[(ptrs PtGen.nsfRows).isoId 63 151 - 1]? with
+      | some r => r.a != 0 && nsfKeyOf r == (63, 151) && r.b_c == .missing && r.coh != .missing
+      | none => false) = true := by decide +kernel
+
+theorem lu175_row_fact :
+    ((ptrs PtGen.nsfRows).isoId 71 175 != 0 &&
+      match PtGen.nsfRows[(ptrs PtGen.nsfRows).isoId 71 175 - 1]? with
+      | some r => r.a != 0 && nsfKeyOf r == (71, 175)
+      | none => false) = true := by decide +kernel
+
+theorem lu176_row_fact : PtGen.nsfRows.any (fun r => r.a != 0 && nsfKeyOf r == (71, 176)) = true := by
+  decide +kernel
+
+theorem irows_guard :
+    PtGen.nsfIRows.all (fun x => (symOf x.z).isSome &&
+      (x.a == 0 || PtGen.nsfRows.any (fun r => r.a != 0 && nsfKeyOf r == (x.z, x.a)))) = true := by
+  decide +kernel
+
+theorem ed_guard :
+    PtGen.edTables.all (fun e => match zOf e.sym with
+      | some z => e.a == 0 || PtGen.nsfRows.any (fun r => r.a != 0 && nsfKeyOf r == (z, e.a))
+      | none => false) = true := by decide +kernel
+
+theorem lu176_table_fact :
+    PtGen.edTables.any (fun e => etarget zOf (ptrs PtGen.nsfRows) e == some ((ptrs PtGen.nsfRows).isoId 71 176)) = true := by
+  decide +kernel
+
+section
+variable {α : Type} [Add α] [Sub α] [Mul α] [Div α] [Neg α] [OfNat α 0] [NatCast α] [IntCast α]
+  [Transc α]
+
+/-- the embedded tables are well-formed for every environment that indexes the real element
+    table and knows the two Lu abundances -/
+theorem generated_wellFormed (env : NsfEnv α) (hs : env.symOf = symOf) (hz : env.zOf = zOf)
+    (hab : env.ab175.isSome = true ∧ env.ab176.isSome = true) : WellFormed env PtGen.nsfTables := by
+  have any_row : ∀ (k : Nat × Nat), PtGen.nsfRows.any (fun r => r.a != 0 && nsfKeyOf r == k) = true →
+      ∃ r ∈ PtGen.nsfTables.rows, r.a ≠ 0 ∧ nsfKeyOf r = k := by
+    intro k h
+    obtain ⟨r, hr, hp⟩ := List.any_eq_true.mp h
+    simp only [Bool.and_eq_true, bne_iff_ne, ne_eq, beq_iff_eq] at hp
+    exact ⟨r, hr, hp.1, hp.2⟩
+  have idx : ∀ n : Nat, n ≠ 0 → n = (n - 1) + 1 := fun n h => by omega
+  have hrows : PtGen.nsfTables.rows = PtGen.nsfRows := rfl
+  refine
+    { rows := ?_, sym54 := by rw [hs]; decide +kernel, sym63 := by rw [hs]; decide +kernel,
+      sym71 := by rw [hs]; decide +kernel, xe := ?_, eu := ?_, irows := ?_, ed := ?_, lu175 := ?_,
+      lu176 := any_row _ lu176_row_fact, lu176tbl := ?_, ab := hab }
+  · unfold nsfRowsOk; rw [hs]; exact rows_guard
+  · have h := xe_row_fact
+    rw [Bool.and_eq_true] at h
+    obtain ⟨h0, h1⟩ := h
+    have h0 := bne_iff_ne.mp h0
+    split at h1
+    · rename_i r hr
+      simp only [Bool.and_eq_true, beq_iff_eq, bne_iff_ne, ne_eq] at h1
+      rw [hrows]
+      exact ⟨(ptrs PtGen.nsfRows).elId 54 - 1, r, hr, idx _ h0, h1.1.1, h1.1.2, h1.2⟩
+    · cases h1
+  · have h := eu_row_fact
+    rw [Bool.and_eq_true] at h
+    obtain ⟨h0, h1⟩ := h
+    have h0 := bne_iff_ne.mp h0
+    split at h1
+    · rename_i r hr
+      simp only [Bool.and_eq_true, beq_iff_eq, bne_iff_ne, ne_eq] at h1
+      rw [hrows]
+      exact ⟨(ptrs PtGen.nsfRows).isoId 63 151 - 1, r, hr, idx _ h0, h1.1.1.1, h1.1.1.2, h1.1.2, h1.2⟩
+    · cases h1
+  · intro x hx
+    have := List.all_eq_true.mp irows_guard x hx
+    simp only [Bool.and_eq_true, Bool.or_eq_true, beq_iff_eq] at this
+    rw [hs]
+    refine ⟨this.1, ?_⟩
+    rcases this.2 with h | h
+    · left; exact h
+    · right; exact any_row _ h
+  · intro e he
+    have := List.all_eq_true.mp ed_guard e he
+    rw [hz]
+    split at this
+    · rename_i z hzz
+      refine ⟨z, hzz, ?_⟩
+      simp only [Bool.or_eq_true, beq_iff_eq] at this
+      rcases this with h | h
+      · left; exact h
+      · right; exact any_row _ h
+    · cases this
+  · have h := lu175_row_fact
+    rw [Bool.and_eq_true] at h
+    obtain ⟨h0, h1⟩ := h
+    have h0 := bne_iff_ne.mp h0
+    split at h1
+    · rename_i r hr
+      simp only [Bool.and_eq_true, beq_iff_eq, bne_iff_ne, ne_eq] at h1
+      rw [hrows]
+      exact ⟨(ptrs PtGen.nsfRows).isoId 71 175 - 1, r, hr, idx _ h0, h1.1, h1.2⟩
+    · cases h1
+  · obtain ⟨e, he, hp⟩ := List.any_eq_true.mp lu176_table_fact
+    simp only [beq_iff_eq] at hp
+    obtain ⟨pre, post, hsplit⟩ := List.append_of_mem he
+    refine ⟨pre, e, post, hsplit, by rw [hz]; exact hp, ?_⟩
+    intro y hy hy'
+    rw [hz] at hy'
+    have hnd := ed_targets.2
+    rw [hsplit, List.map_append, List.map_cons] at hnd
+    have := (List.nodup_append.mp hnd).2.1
+    rw [List.nodup_cons] at this
+    exact this.1 (List.mem_map.mpr ⟨y, hy, hy'.trans hp.symm⟩)
+
+/-- **`nsf.init` does not raise on the embedded tables**, and returns the state all the
+    theorems above speak of -/
+theorem generated_load (env : NsfEnv α) (hs : env.symOf = symOf) (hz : env.zOf = zOf)
+    (hab : env.ab175.isSome = true ∧ env.ab176.isSome = true) :
+    Nsf.load env PtGen.nsfTables = some (Nsf.loadRows env PtGen.nsfTables) :=
+  load_of_wellFormed env PtGen.nsfTables (generated_wellFormed env hs hz hab)
+
+end
 
 /-! ## Part 4 — finding D19: an element with several isotope rows and no row of its own
 
